@@ -187,3 +187,23 @@ RETRY_CONFIGS = [
         {"name": [{"service": "google.example.rt.v1.Library", "method": "GetBook"}], "timeout": "4s"},
     ]},
 ]
+
+
+def lro_api():
+    idx = gen.FileBuilder("google/example/lr/v1/index.proto", "google.example.lr.v1")
+    idx.message("IndexReport", [("pages", "int32")])
+    idx.message("IndexMetadata", [("progress", "int32")])
+    fb = gen.FileBuilder("google/example/lr/v1/library.proto", "google.example.lr.v1")   # does NOT import index.proto
+    fb.message("Book", [("name", "string")])
+    fb.message("WriteMetadata", [("progress", "int32")])
+    fb.message("Req", [("name", "string")])
+    s = fb.service("Library")
+    OP = "google.longrunning.Operation"
+    fb.method(s, "WriteBook", "Req", OP, http=("post", "/v1/{name=books/*}:write", "*"), lro=("Book", "WriteMetadata"))
+    fb.method(s, "RebuildIndex", "Req", OP, http=("post", "/v1/{name=books/*}:index", "*"),
+              lro=("IndexReport", "google.example.lr.v1.IndexMetadata"))
+    fb.method(s, "CleanUp", "Req", OP, http=("post", "/v1/{name=books/*}:clean", "*"),
+              lro=("google.protobuf.Empty", "WriteMetadata"))
+    fb.method(s, "RawOp", "Req", OP, http=("post", "/v1/{name=books/*}:raw", "*"))
+    fb.method(s, "GetBook", "Req", "Book", http=("get", "/v1/{name=books/*}"))
+    return [idx, fb]
